@@ -26,6 +26,12 @@ Variable ev : string -> dict -> evalres.
 Definition lift_eval (r : evalres) : M json :=
   match r with EvOk v => ret v | EvErr e => raise e end.
 
+(* a key expression whose value is a list or a dict: an expression evaluation error (the callers contain it) *)
+Definition exn_unhashable_key (ty k : string) : exn :=
+  {| x_cls := "ExpressionEvaluationException";
+     x_msg := "Unable to use the value of type '" ++ ty ++ "' evaluated from '" ++ k ++ "' as a dictionary key.";
+     x_expr := true |}.
+
 (* expr_base.evaluate(statement, data): recursion over containers, strings go to the evaluators *)
 Fixpoint evaluate (stmt : json) (ctx : dict) {struct stmt} : M json :=
   match stmt with
@@ -43,6 +49,11 @@ Fixpoint evaluate (stmt : json) (ctx : dict) {struct stmt} : M json :=
                | [] => ret acc
                | (k, v) :: kv' =>
                    k' <- lift_eval (ev k ctx) ;;
+                   (match k' with
+                    | JList _ => raise (exn_unhashable_key "list" k)
+                    | JDict _ => raise (exn_unhashable_key "dict" k)
+                    | _ => ret tt
+                    end) ;;;
                    v' <- evaluate v ctx ;;
                    match k' with
                    | JStr ks => go kv' (dset ks v' acc)
